@@ -98,7 +98,8 @@ def run_item(item):
                     if mk not in seen_models:
                         verdict = None
                         try:
-                            rp = replay_contract(c, o.get("model"), o.get("stubs"), o.get("clause"))
+                            stash = {}
+                            rp = replay_contract(c, o.get("model"), o.get("stubs"), o.get("clause"), stash=stash)
                             if rp.get("confirmed") is False and not rp.get("failed") and rp.get("observed_kind"):
                                 eo = engine_outcome(c, o.get("model"), o.get("stubs"))
                                 rk, rc = rp["observed_kind"]
@@ -106,6 +107,12 @@ def run_item(item):
                                                                        and not any(b.__name__ == rc for b in eo[1].__mro__)
                                                                        and eo[1].__name__ not in rp.get("observed_mro", []))):
                                     verdict = f"engine artefact: on the counter-model the engine reaches {eo[0]} {getattr(eo[1], '__name__', '')}, CPython {rk} {rc or ''} and every clause holds there"
+                                elif eo is not None and rk == "return" and "value" in stash:
+                                    from pyvc.replay import deep_same
+                                    same, ca, cb = deep_same(eo[2], eo[3], stash["ctx"], stash["value"])
+                                    if not same:
+                                        verdict = ("engine artefact: on the counter-model the engine computes " + str(ca)[:120] +
+                                                   " where CPython returns " + str(cb)[:120] + " and every clause holds there")
                         except Exception:
                             verdict = None
                         seen_models[mk] = verdict
